@@ -1,7 +1,7 @@
 import PGV.Props.C12
-import PGV.Props.Facts
 
 #print axioms PGV.Props.C12.C12_pool_adversarial
 #print axioms PGV.Props.C12.C12_returns_clean
 #print axioms PGV.Props.C12.C12_history_independent
+#print axioms PGV.Props.C12.C12_writes_independent_of_buffer
 #print axioms PGV.Props.C12.C12_pool_inv_init
